@@ -246,6 +246,15 @@ struct C15 : World {
         o.a[5] = pat;
       }
       p.ops.push_back(o);
+      if (faults && r.chance(1, 40)) {
+        // burst loss: a run of consecutive packets of the selected service is lost (one copy each, dropped), the lengths
+        // around the multiples of 16 included (continuity index arithmetic); 256 packets and more - a whole cycle of the
+        // 8 bit index - are not generated: such a gap is invisible by construction of the format
+        static const int lens[] = {15, 16, 17, 31, 32, 33, 47, 48, 49, 64, 2, 3, 5, 8, 12, 20, 24, 40};
+        int L = r.chance(2, 3) ? lens[r.below(10)] : lens[r.below(sizeof lens / sizeof lens[0])];
+        for (int k = 0; k < L; k++) { Op b; b.task = 0; b.kind = "idl"; b.a = {(int64_t)r.below(40), (int64_t)r.below(1000), 0, 1, 0, 0}; p.ops.push_back(b); }
+        Op g; g.task = 0; g.kind = "idl"; g.a = {1 + (int64_t)r.below(39), (int64_t)r.below(1000), 0, 0, 0, 0}; p.ops.push_back(g);   // an intact packet behind the gap
+      }
     }
     int npfc = (int)r.below(14 * (uint64_t)big);
     for (int i = 0; i < npfc; i++) {
